@@ -80,6 +80,11 @@ class Report:
     def undecided(self) -> list[Obligation]:
         return [o for o in self.obligations if o.status == "undecided"]
 
+    def new_refuted(self) -> list[Obligation]:
+        """Refuted obligations that are not listed as known findings (what makes the check exit 1)."""
+        known = {k["key"] for k in load_known() if k.get("status") == "known" and k.get("property") == self.prop}
+        return [o for o in self.refuted() if o.key(self.prop) not in known]
+
 
 def load_known() -> list[dict]:
     out = []
